@@ -196,8 +196,12 @@ def record(C, binaries, seed, n, work, first=0):
 
 def validate(C, trace, work):
     nlines = sum(1 for x in open(trace) if x.strip())
-    o = C.tlc("TraceCli.tla", "Trace.cfg", work, 1, 3000, env={"TRACE": trace})
-    m = re.search(r'<<"RESULT", (".*")>>', o["out"])
+    for attempt in (1, 2):
+        o = C.tlc("TraceCli.tla", "Trace.cfg", work, 1, 3000,
+                  env={"TRACE": trace, "JAVA_TOOL_OPTIONS": C.JAVA_OPTS + " -Xmx8g"})
+        m = re.search(r'<<"RESULT", (".*")>>', o["out"])
+        if m or "Error:" in o["out"] or attempt == 2:
+            break
     if not m:
         sys.stdout.write(o["out"][-5000:])
         raise C.ToolError("CLI trace validation did not complete")
